@@ -22,14 +22,14 @@ TECH_NODE = "machine-checked proof in Coq 8.16.1 on a hand-written executable Ga
 
 PROPS = {
     "C01": dict(family="node", level="proof", title="Agreement",
-        level_text="Proved for every N and every behaviour of at most F keys: agreement follows from quorum certificates and one-signature-per-height (Properties/C01.v, quorum intersection by pigeonhole). The node-level premises are proved only in part (counting clause of the certificate, commit gate); the unconditional statement is false of the code (known findings D1f/D1fa: forks replayed on the real library).",
+        level_text="Proved for every N and every behaviour of at most F keys: agreement follows from quorum certificates and one-signature-per-height (Properties/C01.v, quorum intersection by pigeonhole). The node-level premises are proved only in part (counting clause of the certificate, commit gate, and - Properties/C03.v - at most one block signature per initialisation epoch); the unconditional statement is false of the code (known findings D1f/D1fa: forks replayed on the real library).",
         level_note="partial: composition theorem proved; premises 'every counted signature verifies' and 'one commit per height' are exercised by monitors on the real code, not proved"),
     "C02": dict(family="node", level="proof", title="Decision certificate",
         level_text="Proved for every reachable model state and script: the block (pre-block) is handed over only while M commits (pre-commits) of the current view are held, with all transactions, at most once per height; the block handed over is the node's header, whose timestamp, nonce and transaction list (in order) are those of the PrepareRequest of the current view held in the slot of the view's primary (height - view mod N), and whose index and previous hash are the context's values read from the application at the height's initialisation (Node/P02.v, invariant Inv2). Refuted with a model-level witness that is the real library's own history: that each counted signature verifies against that block (D1, D1p, D2, D2n).",
         level_note="partial: counting, at-most-once and block-is-the-proposal clauses proved on the whole model; signature validity of stored early commits is a known finding (refutation theorem with the library's own history as witness)"),
-    "C03": dict(family="node", level="other", title="Non-equivocation and commit lock",
-        level_text="Proved for every reachable model state and script (whole model, Node/P02.v): the node asks the application for a block signature only for the hash of its header, which is the proposal of its current view held in the primary's slot, and only while its own Commit slot is empty. Proved for every state with the own Commit/PreCommit slot filled (non-watch-only validator): a retransmitted Commit/PreCommit is the stored one (nothing signed again); a timeout, a peer's ChangeView and a transaction leave the view untouched and broadcast no ChangeView. Not proved: the lock against a PrepareRequest arriving after the commit (needs an authenticity assumption the library does not check) and the history-level clauses (one proposal/response per view, one commit per height, view monotonicity, recovery contents): decided by monitors on every node's outgoing history on the real library.",
-        level_note="partial: signature gate proved on the whole model, lock proved at three of its four sites, identical retransmission proved; history clauses by exploration with monitors; model-code correspondence"),
+    "C03": dict(family="node", level="proof", title="Non-equivocation and commit lock",
+        level_text="Proved over whole histories of the node model: (1) in every history of one initialisation epoch (Start or Reset, then any other API calls, any callback answers) in which the application reports one validator index in its key-pair callbacks and the validator list has at most 2^16 entries, the node asks for at most one block signature, and once it has signed, its own Commit slot keeps exactly that commit (index, key, view not ahead of the node's, signature of the header while its view is current) through re-verification of stored commits, view changes and everything else (Node/Sign.v, SignEpoch.v: ghost counter of signature requests tied to the state by invariant Sg); (2) for every reachable state and script, a block signature is requested only for the hash of the node's header, which is the proposal of its current view held in the primary's slot, and only while the own Commit slot is empty (Node/P02.v). Proved for every state with the own Commit/PreCommit slot filled (non-watch-only validator): a retransmitted Commit/PreCommit is the stored one; a timeout, a peer's ChangeView and a transaction leave the view untouched and broadcast no ChangeView. Not proved: the lock against a PrepareRequest arriving after the commit, one proposal/response per view, view monotonicity of outgoing messages, recovery contents: decided by monitors on every node's outgoing history on the real library.",
+        level_note="partial: one block signature per epoch and persistence of the signed commit proved over all histories (under a stable key-pair callback and N <= 2^16); signature gate proved on the whole model; lock proved at three of its four sites; remaining history clauses by exploration with monitors; model-code correspondence"),
     "C04": dict(family="node", level="proof", title="Quorum-gated progress",
         level_text="Proved for every reachable model state and script: a PrepareResponse is broadcast only with all transactions held and names the hash of the proposal in the primary's slot; Commit/PreCommit only with M current-view preparations including a request and all transactions. Proved over all started histories: in a view v > 0 the node holds M kept ChangeView requests for v or above. Not proved: 'the verification callback accepted the block' (exercised).",
         level_note="response/commit/pre-commit gates and the view-entry condition proved; the verification-accepted clause exercised"),
